@@ -115,6 +115,33 @@ PROPS = {
         'level_text': 'Composition only: Verus proves on the real signer / verifier bodies that every signing entry point (deterministic nonce in both nonce byte orders, caller nonce, random nonce, pre-hashed digest) returns ecdsa_sign(d, k, z) with z = big-endian reduction of the selected digest (SHA-256 or double SHA-256 of the message) - the same z both verifiers use - that the deterministic nonce is rfc6979_k over the stated hash with the stated byte order, that the recovery info carries the key compression flag, that verification accepts exactly when ecdsa_verify holds and never returns Ok(false); with the ECDSA axiom every produced signature verifies under the signer key. ECDH returns the x coordinate of d*Q and is symmetric by the commutativity axiom.',
         'level_note': TB + ' The elliptic-curve primitives are assumed, not verified.',
     },
+    'C11': {
+        'units': {
+            'ecies_glue': ['*'],
+            'aes_glue': ['AES::encrypt_impl', 'AES::decrypt_impl'],
+            'hash_glue': ['Hash::sha_512', 'Hash::sha_256_hmac', 'Hash::hmac'],
+        },
+        'assumptions': ['ECDH point multiplication, SEC1 encoding, SHA-512, HMAC-SHA256 and AES-128-CBC are uninterpreted functions (k256, sha2, hmac, aes, block-modes assumed); byte-identity with an independent BIE1 implementation is decided only up to these primitives',
+                        'axioms: ECDH commutes; cbc_dec(cbc_enc(m)) == Some(m); unforgeability of HMAC is NOT a theorem here: "tampering is rejected" is decided in the form "nothing is returned unless the stored MAC equals the HMAC over magic ++ embedded key ++ body"'],
+        'design_ref': 'DESIGN.md section 4 C11',
+        'level_text': 'Verus proves on the real bodies: keys = SHA-512(compressed(d*Q)) split [0..16] iv / [16..32] AES key / [32..64] MAC key; encrypt returns AES-128-CBC(ke, iv, m), the embedded compressed sender key (unless excluded) and HMAC-SHA256(km, "BIE1" ++ key? ++ ciphertext); decrypt returns plaintext only if the stored MAC equals that HMAC and then the CBC decryption; to_bytes = "BIE1" ++ key? ++ ct ++ mac and from_bytes decodes by position, validates the embedded key, and returns Err (never panics) on short input; decrypt o encrypt = id and parse o serialise = id are lemmas over the contracts and the cipher / ECDH axioms.',
+        'level_note': TB + ' Cryptographic primitives are assumed, not verified.',
+    },
+    'C12': {
+        'units': {
+            'bsm_glue': ['*'],
+            'signature_glue': ['Signature::get_public_key', 'Signature::to_compact_bytes', 'Signature::from_compact_impl'],
+            'keys_glue': ['P2PKHAddress::from_pubkey_impl', 'P2PKHAddress::to_pubkey_hash'],
+            'ecdsa_glue': ['ECDSA::sign_with_deterministic_k_impl', 'ECDSA::sign_with_k_impl', 'ECDSA::verify_digest_impl'],
+        },
+        'kani': [
+            {'harness': 'write_varint_vec_all_u64', 'validates': 'shim contract VarIntWriter for Vec<u8>::write_varint == varint(n), all u64'},
+        ],
+        'assumptions': ['ECDSA sign / verify / recover, SEC1, hash160 are uninterpreted (k256 etc. assumed); "verification fails for any other message or key" rests on those primitives and is NOT decided here beyond: Ok is returned only if the recovered key hashes to the address hash and the signature verifies'],
+        'design_ref': 'DESIGN.md section 4 C12',
+        'level_text': 'Verus proves on the real bodies: the signed bytes are compact-size(24) ++ "Bitcoin Signed Message:\\n" ++ compact-size(len) ++ message for every length (compact-size writer proved by Kani over all u64), the signed digest is its double SHA-256, signing carries the key compression marker; verify returns Ok(true) only if the key recovered with the recorded id hashes (hash160 of its recorded compression form) to the address hash and the signature verifies, and returns Ok whenever that holds - independent of the address prefix.',
+        'level_note': TB,
+    },
     'C04': {
         'units': {
             'tx_cache': ['*'],
@@ -131,8 +158,6 @@ PROPS = {
 NOT_CLAIMED = {
     'C08': 'not reached yet',
     'C09': 'not reached yet',
-    'C11': 'not reached yet',
-    'C12': 'not reached yet',
     'C14': 'not reached yet',
     'C15': 'not reached yet',
     'C16': 'not reached yet',
